@@ -58,6 +58,143 @@ def run(F, R, tier):
             "fold start / search start / edge direction; oracle spec/c05_version_graph.json")
 
 
+# ------------------------------------------------------------------------------------ `?` in all its spellings
+def payload_pat(p):
+    """sub-pattern p of `Some(p)` / `Ok(p)` (below & / box / deref patterns), else None"""
+    while p.get("k") in ("pref", "pbox", "pderef"):
+        p = p["pat"]
+    if p.get("k") == "ptuplestruct" and p["res"].get("variant") in ("Some", "Ok") and len(p["pats"]) == 1 and p.get("ddpos") is None:
+        return p["pats"][0]
+    return None
+
+
+def failure_pat(p):
+    """`None`, `Err(..)`, `_` or a plain binding: what the error arm of a hand-written `?` matches"""
+    while p.get("k") in ("pref", "pbox", "pderef"):
+        p = p["pat"]
+    k = p.get("k")
+    if k == "wild" or (k == "bind" and "sub" not in p):
+        return True
+    pv = H.pat_variant(p)
+    return pv is not None and pv[1] in ("None", "Err")
+
+
+def err_exit(n):
+    return H.diverges(n) and H.is_err_exit(n)
+
+
+class PE(U.PathEval):
+    """PathEval in which every spelling of "unwrap the Some/Ok payload or leave the function with an error" is the `?` of the base class:
+    `let Some(p) = e else { bail!(..) }`, `if let Some(p) = e { .. } else { bail!(..) }`, `match e { Some(p) => .., None => bail!(..) }`
+    (arms in any order, `Ok`/`Err(e) => return Err(..)` alike), `if e.is_none() { bail!(..) } .. e.unwrap()`.  On a symbolic `e` the term is
+    marked `tried`, p is bound to (projections of) the term itself, and the guard is recorded; on a concrete None/Err the error exit is taken
+    and a `refuted` event remembers which expression was None."""
+
+    def as_try(self, v, node):
+        if U.kind_of(v) == "call" and v[4] in self.by_nid:
+            self.by_nid[v[4]]["tried"] = True
+        self.event(kind="try", inner=v, node=node)
+
+    def unwrap_into(self, sub, v, pat, node, env):
+        """v is undecided against `Some(sub)`/`Ok(sub)` and the other case is an error exit: bind sub like `let sub = v?`."""
+        if T.is_sym(v):
+            self.as_try(v, node)
+            inner = v
+        elif v[0] == "v" and v[1] in ("Some", "Ok") and v[2]:
+            inner = v[2][0]
+        else:
+            return False
+        pv = H.pat_variant(pat)
+        self.event(kind="guard", canon=("matches", pv[1] if pv else H.render_pat(pat), T.show(v)), value=v, node=node)
+        e3 = {}
+        if T.match_pat(sub, inner, e3) is True:
+            env.update(e3)
+        else:
+            U.proj_bind(sub, inner, env)
+        return True
+
+    def stmt(self, s, env):
+        if s.get("k") == "let" and "init" in s and "els" in s:
+            v = self.ev(s["init"], env)
+            e2 = {}
+            r = T.match_pat(s["pat"], v, e2)
+            if r is True:
+                env.update(e2)
+                return
+            if r is False:
+                self.event(kind="refuted", scrut=s["init"], value=v, node=s)
+                self.ev(s["els"], env)      # diverges (raises Return)
+                return
+            sub = payload_pat(s["pat"])
+            if sub is not None and err_exit(s["els"]) and self.unwrap_into(sub, v, s["pat"], s, env):
+                return
+            pv = H.pat_variant(s["pat"])
+            if H.is_err_exit(s["els"]):
+                self.event(kind="guard", canon=("matches", pv[1] if pv else H.render_pat(s["pat"]), T.show(v)), value=v, node=s)
+            else:
+                self.event(kind="opaque", node=s)
+            for (i, nm) in H.pat_bindings(s["pat"]):
+                env[i] = e2.get(i, T.sym(nm))
+            return
+        super().stmt(s, env)
+
+    def if_(self, n, env):
+        c = H.peel(n["cond"], refs=False)
+        if c.get("k") == "letexpr" and "else" in n:
+            sub = payload_pat(c["pat"])
+            if sub is not None and err_exit(n["else"]):
+                v = self.ev(c["init"], env)
+                e2 = dict(env)
+                r = T.match_pat(c["pat"], v, e2)
+                if r is True:
+                    return self.ev(n["then"], e2)
+                if r is False:
+                    self.event(kind="refuted", scrut=c["init"], value=v, node=n)
+                    return self.ev(n["else"], env)
+                e2 = dict(env)
+                if self.unwrap_into(sub, v, c["pat"], n, e2):
+                    return self.ev(n["then"], e2)
+                for (i, nm) in H.pat_bindings(c["pat"]):
+                    e2.setdefault(i, T.sym(nm))
+                pv = H.pat_variant(c["pat"])
+                self.event(kind="guard", canon=("matches", pv[1] if pv else H.render_pat(c["pat"]), T.show(v)), value=v, node=n)
+                return self.ev(n["then"], e2)
+        return super().if_(n, env)
+
+    def match(self, n, env):
+        arms = n["arms"]
+        good = [a for a in arms if not err_exit(a["body"])]
+        if id(n) not in self.scrut_override and len(arms) >= 2 and len(good) == 1 and "guard" not in good[0] \
+                and payload_pat(good[0]["pat"]) is not None and all(a is good[0] or ("guard" not in a and failure_pat(a["pat"])) for a in arms):
+            sv = self.ev(n["scrut"], env)
+            e2 = dict(env)
+            r = T.match_pat(good[0]["pat"], sv, e2)
+            if r is None and self.unwrap_into(payload_pat(good[0]["pat"]), sv, good[0]["pat"], n, e2):
+                return self.ev(good[0]["body"], e2)
+            if r is False:
+                self.event(kind="refuted", scrut=n["scrut"], value=sv, node=n)
+            # decided (or not understood): the base class on the value already computed
+            shadow = dict(n)
+            shadow["scrut"] = {"k": "tuple", "es": [], "ty": "()"}
+            self.scrut_override[id(shadow)] = sv
+            try:
+                return super().match(shadow, env)
+            finally:
+                del self.scrut_override[id(shadow)]
+        return super().match(n, env)
+
+    def call(self, n, c, args, env):
+        name = H.callee_name(n)
+        if name in ("unwrap", "expect", "unwrap_unchecked") and args and T.is_sym(args[0]) and c.get("r") != "local":
+            # `if e.is_none() { bail!(..) } .. e.unwrap()`: the payload of a term that the guards on this path prove to be Some/Ok
+            for g in self.guards():
+                for probe, pol in (("is_none", False), ("is_err", False), ("is_some", True), ("is_ok", True)):
+                    if g == ("atom", "%s(%s)" % (probe, T.show(args[0])), pol):
+                        self.as_try(args[0], n)
+                        return args[0]
+        return super().call(n, c, args, env)
+
+
 def same(a, b):
     if U.kind_of(a) == "call" and U.kind_of(b) == "call" and a[4] is not None:
         return a[4] == b[4]
@@ -134,13 +271,13 @@ def r05_1(c, R, spec, ctx):
             return T.sym("<loop>")
         return None
 
-    peA = U.PathEval(for_hook=hookA)
+    peA = PE(for_hook=hookA)
     outA, envA = peA.run_body(fn, [S("dir")])
     scan = []
     for n, e in loopsA:
         if n.get("k") != "for":
             continue
-        pi = U.PathEval()
+        pi = PE()
         pi.run(n["iter"], dict(e))
         rd = [x for x in pi.calls_named("read_dir") if x["args"] == [S("dir")] and x["tried"]]
         if rd:
@@ -150,9 +287,12 @@ def r05_1(c, R, spec, ctx):
     scan_node, scan_env = scan[0]
     ctxcalls = [e for e in peA.trace if e["kind"] == "call" and e["name"] in ("context", "with_context", "ok_or", "ok_or_else")
                 and e["args"] and e["args"][0] == T.V("None")]
+    # .. or its hand-written form: `let Some(..) = root else { bail!(..) }` / `match root { None => bail!(..), .. }` taken on the None
+    nones = [(peA.trace.index(e), e["node"]["recv"]) for e in ctxcalls if e["node"].get("k") == "mcall"]
+    nones += [(i, e["scrut"]) for i, e in enumerate(peA.trace) if e["kind"] == "refuted" and e["value"] == T.V("None")]
     root_id = None
-    if ctxcalls:
-        loc = H.local_of(ctxcalls[-1]["node"]["recv"]) if ctxcalls[-1]["node"].get("k") == "mcall" else None
+    if nones:
+        loc = H.local_of(H.peel(max(nones, key=lambda x: x[0])[1]))
         root_id = loc[0] if loc else None
     R.inst(rid, "no-root:Err", U.outcome_value(outA)[0] == "err" and root_id is not None, sp=fn["sp"],
            expect="root.context(..)? on the still-None root -> Err", got=U.outcome_value(outA)[0],
@@ -168,7 +308,7 @@ def r05_1(c, R, spec, ctx):
             T.match_pat(scan_node["pat"], S("entry"), env)
             env[root_id] = rv
             recv = {}
-            pe = U.PathEval(hooks=scan_hooks(spec, fclass, recv))
+            pe = PE(hooks=scan_hooks(spec, fclass, recv))
             out = pe.run(scan_node["body"], env)
             if fclass == "diff" and rstate == "none":
                 ok_src = (bool(recv.get("strip_suffix")) and all("file_name($entry)" in x and "$stem" not in x for x in recv["strip_suffix"])
@@ -219,7 +359,7 @@ def r05_1(c, R, spec, ctx):
         loopsB.append((n, dict(env)))
         return T.sym("<loop>")
 
-    peB = U.PathEval(for_hook=hookB)
+    peB = PE(for_hook=hookB)
     outB, envB = peB.run_body(fn, [S("dir")])
     oB = U.outcome_value(outB)
     st = oB[1] if oB[0] == "ok" and oB[1][0] == "st" else None
@@ -261,7 +401,7 @@ def r05_2_3(c, R, spec, ctx):
     fn = c.fn("apply_diffs", impl_ty=VG)
     if not R.anchor(r3, "fn VersionGraph::apply_diffs", fn):
         return
-    pe = U.PathEval()
+    pe = PE()
     out, env = pe.run_body(fn, [S("self"), S("tv")])
     o = U.outcome_value(out)
     v = o[1] if len(o) > 1 else None
@@ -347,7 +487,7 @@ def r05_4(c, R, spec, ctx):
                 looked.append(args)
                 return T.V("Some", ("t", [S("split"), S("idx")])) if known else T.V("None")
 
-            pe = U.PathEval(hooks={"get": get_hook})
+            pe = PE(hooks={"get": get_hook})
             out, env = pe.run_body(fn, [S("self"), S("name")])
             o = U.outcome_value(out)
             if not known:
@@ -387,7 +527,7 @@ def r05_4(c, R, spec, ctx):
         popped.append((H.callee_name(n), args))
         return T.V("Some", ("t", [S("wpath"), S("head")]))
 
-    pe = U.PathEval(for_hook=hook, hooks={"pop_front": pop_hook, "pop_back": pop_hook, "pop": pop_hook})
+    pe = PE(for_hook=hook, hooks={"pop_front": pop_hook, "pop_back": pop_hook, "pop": pop_hook})
     pe.run(wnode["body"], dict(wenv))
     if not R.anchor(rid, "walker: `for v in <successors of head>`", len(inner) == 1 and len(popped) == 1, sp=wnode["sp"]):
         return
@@ -399,7 +539,7 @@ def r05_4(c, R, spec, ctx):
         ok_start = h0 == S("rootnode") and U.is_call(p0, "new", "default") and not U.call_args(p0)
     R.inst(rid, "walker:starts-at-root", ok_start, sp=wnode["sp"], got=showv(walkers), expect="[(Vec::new(), root)]")
     inode, ienv = inner[0]
-    it = U.PathEval().run(inode["iter"], dict(ienv))
+    it = PE().run(inode["iter"], dict(ienv))
     itv = it[1] if it[0] == "ok" else None
     ok_dir = U.is_call(itv, "neighbors_directed") and len(U.call_args(itv)) == 3 and U.call_args(itv)[1] == S("head") \
         and U.call_args(itv)[2] == T.V(spec["walk_direction"]) and same(U.call_args(itv)[0], st[2].get("graph"))
@@ -407,7 +547,7 @@ def r05_4(c, R, spec, ctx):
            expect="graph.neighbors_directed(head, Direction::%s)" % spec["walk_direction"])
     env = dict(ienv)
     T.match_pat(inode["pat"], S("v"), env)
-    pe2 = U.PathEval()
+    pe2 = PE()
     out = pe2.run(inode["body"], env)
     pushes = [e for e in pe2.trace if e["kind"] == "call" and e["name"] in ("push_back", "push_front", "push") and e["args"] and same(e["args"][0], walkers)]
     ok_one = len(pushes) == 1 and pushes[0]["cond"] == 0 and out[0] == "ok"
@@ -455,7 +595,7 @@ def r05_5(c, R, spec, ctx):
                     return T.V("Some", ("t", [S("client"), S("server")])) if split else T.V("None")
                 return None
 
-            pe = U.PathEval(hooks={"split_once": so})
+            pe = PE(hooks={"split_once": so})
             out, env = pe.run_body(fn, [S("versions"), S("graph"), S("name")])
             o = U.outcome_value(out)
             ret = o[1] if len(o) > 1 else None
@@ -506,7 +646,7 @@ def r05_5(c, R, spec, ctx):
     # NodeData::new keeps the name
     nd = c.fn("new", impl_ty="version_graph::NodeData")
     if R.anchor(rid, "fn NodeData::new", nd):
-        pe = U.PathEval()
+        pe = PE()
         out, env = pe.run_body(nd, [S("name")])
         o = U.outcome_value(out)
         ok = len(o) > 1 and o[1][0] == "st" and o[1][2].get("name") == S("name")
